@@ -184,7 +184,9 @@ def run(ctx):
               any(basename(x.get('name') or '') == 'end' for x in walk(a) if x.get('k') == 'call') and
               any(basename(x.get('name') or '').split('<')[0] == 'find' for x in walk(deep_resolve(ld, a)) if x.get('k') == 'call'),
               True, 'X9 edge not mentioned in its dyndep file (`find(edge) == end()`)', 'X9:edge-not-mentioned')
-    reject_if(ctx, 'C11.X', ld, lambda a: mentions_field(a, 'Dyndeps::used_'), False,
+    # (the test of an entry that was looked up for an edge - `find(edge)` - is X12 below; X10 is about the entries of the sweep)
+    reject_if(ctx, 'C11.X', ld, lambda a: mentions_field(a, 'Dyndeps::used_') and
+              not any(x.get('k') == 'call' and basename(x.get('name') or '').split('<')[0] == 'find' for x in walk(deep_resolve(ld, a))), False,
               'X10 dyndep file mentions a statement without a binding for it', 'X10:extra-entry')
     reject_if(ctx, 'C11.X', ld, lambda a: any(is_file_load(prog, x) for x in walk(a)), False,
               'dyndep file missing / unreadable / malformed', 'X:load-failed')
@@ -201,7 +203,16 @@ def run(ctx):
         else:
             ctx.check('C11.X', f.name == ld.name and const_value(rhs) == 1, f.name, 'used_:writer',
                       f.where(e), 'Dyndeps::used_ set true only by the loader for a found entry')
-    ctx.floor('C11.X', 24)
+    # one-to-one also in the other direction: an entry is applied to its edge once per load, although an edge that lists the
+    # dyndep file several times among its inputs is several times among the node's out-edges
+    marks = [e for f, e, kind, rhs in field_writes(prog, 'Dyndeps::used_', [ld]) if not e.get('init') and const_value(rhs) == 1]
+    for e in marks:
+        guarded(ctx, 'C11.X', ld, e, lambda a: mentions_field(a, 'Dyndeps::used_'), False,
+                'an entry is marked used (and applied) only if it was not used before in this load', construct='X12:entry-applied-twice')
+    for e in ld.calls('DyndepLoader::UpdateEdge'):
+        ctx.check('C11.X', any(ld.dominates_ev(m, e) for m in marks), ld.name, 'X12:update-before-mark', ld.where(e),
+                  'UpdateEdge runs behind the store that marks the entry used')
+    ctx.floor('C11.X', 26)
 
     # ---- P1/P2: splice consistency ---------------------------------------------------------------
     R('C11.P', 'P', 'UpdateEdge splices inputs into the implicit range with the counter, outputs '
